@@ -42,6 +42,8 @@ DISK_COMPONENTS = {
     "real": ["IndxIO.save", "IndxIO.load", "numpy.ndarray.tofile", "mmap", "kernel file layer (memfd)",
              "RLIMIT_FSIZE enforcement", "fit_dtype", "iindex (index-derived cases)"],
     "stub": ["file object handed to save (logging proxy over io.FileIO/BufferedWriter/BufferedRandom)",
+             "os module as seen from catii.indxio, if it uses one (call-counting proxy that can fail the device)",
+             "multiprocessing.pool.ThreadPool, if save/load start one (SimPool under a seeded session)",
              "row-id arrays of the >=2^30-row-id cases (length-only stand-ins)"],
     "independent_party": ["sim/refcodec.py (struct-based INDX codec written from the format description)"],
 }
@@ -50,6 +52,21 @@ DISK_COMPONENTS = {
 class StorageAdapter(Adapter):
     engine = "disk"
     components = DISK_COMPONENTS
+
+    def prepare(self):
+        # the pool stub is installed here too (before catii is imported), so that a save() or load() that starts
+        # worker threads is scheduled by the simulator, and the system-call seam is put under catii.indxio
+        from . import build, osproxy, sched
+        import os
+        import sys
+
+        tree = build.ensure_catii()
+        if "catii" not in sys.modules:
+            sched.install(os.path.join(os.path.realpath(tree), "catii") + os.sep)
+        build.import_catii()
+        import catii.indxio
+
+        osproxy.install_into(catii.indxio)
 
     def __init__(self, prop, level, runs, probes=()):
         self.prop = prop
